@@ -122,6 +122,7 @@ def Sender.pick (s : Sender) (topic : Nat) : Sender :=
 inductive CloseReason
   | badStream        -- ErrBadStream
   | maxMessageSize   -- ErrMaxMessageSize
+  | malformed        -- the wire frame is not a well-formed `Envelope{Packet}` (read / unmarshal / FromAny / type error)
   deriving DecidableEq, Repr
 
 structure Receiver where
@@ -156,6 +157,13 @@ def Receiver.handle (L : Limits) (r : Receiver) (p : Packet) : Receiver :=
                     log := r'.log.set p.topic (r.log.get p.topic ++ [a']) }
         else r'
       else { r with asm := r.asm.set p.topic a' }
+
+/-- a wire frame that does not decode to a packet (zero-length or undecodable envelope, unknown or empty
+payload type, a message that is not a `Packet`, a length prefix above `maxPacketSize`, a truncated
+frame): `waitForAndHandleWireBytes` returns an error or the dispatch hits `default`, the receive loop
+calls `c.Error` and returns. No stream is touched. -/
+def Receiver.malformed (r : Receiver) : Receiver :=
+  if r.closed.isSome then r else { r with closed := some .malformed }
 
 /-- the application takes everything currently in the inbox of `topic` -/
 def Receiver.drain (r : Receiver) (topic : Nat) : Receiver :=
